@@ -378,7 +378,9 @@ Section Proofs.
     | GPlane _ _ => GPlane A c | GStd _ _ R k => GStd A c R k | GEven _ _ R k t m cf => GEven A c R k t m cf
     | GPoly _ _ R k t m cf => GPoly A c R k t m cf | GCheb _ _ R k t m cf nx ny => GCheb A c R k t m cf nx ny
     end.
-  Definition cs_with_z (z : A) (c : cs) : cs := match c with CS _ x y _ rx ry rz r => CS A x y z rx ry rz r end.
+  Definition cs_with_pos (x y z : A) (c : cs) : cs := match c with CS _ _ _ _ rx ry rz r => CS A x y z rx ry rz r end.
+  (** Optic.set_radius(inf) on a standard surface: back to a Plane on the same coordinate system *)
+  Definition g_flatten (g : geom) : geom := match g with GStd _ c _ _ => GPlane A c | _ => g end.
   (** Optic.set_radius: a plane becomes a standard surface with conic 0 *)
   Definition g_set_radius (v : A) (g : geom) : geom :=
     match g with
@@ -423,7 +425,9 @@ Section Proofs.
   | ESetConic (k : nat) (v : A)               (* set_conic, conic pickups / variables *)
   | ESetIndex (k : nat) (v : A)               (* set_index *)
   | ESetCoeff (k i : nat) (v : A)             (* set_asphere_coeff *)
-  | ESetZ (k : nat) (z : A)                   (* one vertex position written by set_thickness / solves / image_solve *)
+  | ESetPos (k : nat) (x y z : A)             (* one vertex position written by set_thickness / solves / image_solve /
+                                                 scale_system (which also scales the decentres x, y) *)
+  | ESetFlat (k : nat)                        (* set_radius(inf): a standard surface becomes a Plane again *)
   | ESetApertureValue (v : A)                 (* scale_system on an EPD aperture *)
   | ESetPhysAperture (k : nat) (rmax rmin : A) (* scale_system on a surface aperture *)
   | EAddPickup (p : pickup A)
@@ -439,7 +443,8 @@ Section Proofs.
     | ESetIndex k v => with_surfs l (upd (S k) (s_set_pre (MIdeal A v c_zero))
                                         (upd k (s_set_post (MIdeal A v c_zero)) (l_surfs l)))
     | ESetCoeff k i v => with_surfs l (upd k (s_geom (g_set_coeff i v)) (l_surfs l))
-    | ESetZ k z => with_surfs l (upd k (s_geom (fun g => g_with_cs (cs_with_z z (g_cs g)) g)) (l_surfs l))
+    | ESetPos k x y z => with_surfs l (upd k (s_geom (fun g => g_with_cs (cs_with_pos x y z (g_cs g)) g)) (l_surfs l))
+    | ESetFlat k => with_surfs l (upd k (s_geom g_flatten) (l_surfs l))
     | ESetApertureValue v =>
         mkLens (match l_ap l with Some (SysAp _ t _ tc) => Some (SysAp A t v tc) | None => None end)
                (l_ftype l) (l_surfs l) (l_fields l) (l_fg_tele l) (l_waves l) (l_pol l) (l_pickups l) (l_solves l) (l_tele l)
